@@ -517,12 +517,64 @@ def s5(ctx, rep):
             f"{n} methods of {len(sc)} classes scanned")
 
 
+def s7_defaults(ctx, rep):
+    """a second experiment in the same process starts from the same defaults as the first: the module-level option tables are never
+    written to - neither directly, nor through check_and_merge_defaults, which receives them as `default_options`"""
+    from .common import _MUTATORS
+    P = ctx.P
+    f = P.func("syne_tune.optimizer.schedulers.searchers.utils.default_arguments.check_and_merge_defaults")
+    dp = "default_options"
+    if dp not in f.params:
+        raise AnchorError("check_and_merge_defaults: parameter `default_options` not found")
+    owned = {dp}
+    for x in walk_shallow(f.node, include_lambda=True):
+        if isinstance(x, (ast.For, ast.comprehension)) and any(isinstance(y, ast.Name) and y.id == dp for y in ast.walk(x.iter)):
+            for t in ast.walk(x.target):
+                if isinstance(t, ast.Name) and fn_name(x.iter) in ("items", "values"):
+                    owned.add(t.id)
+    # the value element of `for key, value in default_options.items()` (keys are immutable strings)
+    bad = []
+    for x in walk_shallow(f.node):
+        if isinstance(x, ast.Call) and isinstance(x.func, ast.Attribute) and x.func.attr in _MUTATORS and isinstance(x.func.value, ast.Name) and x.func.value.id in owned:
+            bad.append(x)
+        if isinstance(x, (ast.Assign, ast.AugAssign, ast.Delete)):
+            for t in (x.targets if not isinstance(x, ast.AugAssign) else [x.target]):
+                if isinstance(t, ast.Subscript) and isinstance(t.value, ast.Name) and t.value.id in owned:
+                    bad.append(x)
+    rep.put(not bad, "S5", "aliasing", "check_and_merge_defaults leaves the table of defaults (and its entries) as they are", f, bad[0] if bad else None, f"owned names {sorted(owned)}",
+            f"`{U(bad[0])[:60] if bad else ''}` writes into the defaults it was given - a module-level table: what one scheduler's options put there is the default of "
+            "every scheduler created afterwards in the process, so two runs with equal arguments and seed differ depending on what ran before")
+    n = 0
+    for g in sorted(P.functions.values(), key=lambda g_: g_.qualname):
+        if not g.module.relpath.startswith("syne_tune/optimizer/"):
+            continue
+        consts = {t.id for st in g.module.tree.body if isinstance(st, (ast.Assign, ast.AnnAssign)) for t in (st.targets if isinstance(st, ast.Assign) else [st.target])
+                  if isinstance(t, ast.Name) and t.id.lstrip("_").isupper() and isinstance(getattr(st, "value", None), (ast.Dict, ast.Set, ast.List))}
+        if not consts:
+            continue
+        n += 1
+        for x in walk_shallow(g.node):
+            hit = None
+            if isinstance(x, ast.Call) and isinstance(x.func, ast.Attribute) and x.func.attr in _MUTATORS and isinstance(x.func.value, ast.Name) and x.func.value.id in consts:
+                hit = x
+            if isinstance(x, (ast.Assign, ast.AugAssign, ast.Delete)):
+                for t in (x.targets if not isinstance(x, ast.AugAssign) else [x.target]):
+                    if isinstance(t, ast.Subscript) and isinstance(t.value, ast.Name) and t.value.id in consts:
+                        hit = x
+            if hit is not None and not any(isinstance(d_, (ast.Assign,)) and any(isinstance(t_, ast.Name) and t_.id in consts for t_ in d_.targets) for d_ in walk_shallow(g.node)):
+                rep.bad("S5", "aliasing", f"{g.short}: module-level option tables are not modified", g, hit,
+                        f"`{U(hit)[:60]}` changes a module-level table at run time: later experiments in the process start from other defaults")
+    if n < 5:
+        raise AnchorError("module-level option tables of the optimizer package not found")
+
+
 def run(ctx, rep, tier="quick"):
     s1(ctx, rep)
     s2(ctx, rep)
     s3(ctx, rep)
     s4(ctx, rep, tier == "thorough")
     s5(ctx, rep)
+    s7_defaults(ctx, rep)
     # S6 simulated experiments: a fixed backend seed (0 included) is used for every trial, a per-trial seed is drawn once
     # and kept (shared with C10-S3)
     from . import c10
